@@ -4,7 +4,7 @@
    statements are already expanded to file indices; any import graph: cycles, diamonds, self
    imports).  `Stable` (Proofs/RepoProofs.v) is the well-formedness of the state between two
    top-level loads; it holds initially and after every history (C17_histories_well_formed). *)
-From TxV Require Import Core.Base Model.RepoDefs Gen.SrcRepo Model.Repo Proofs.RepoProofs.
+From TxV Require Import Core.Base Model.RepoDefs Gen.SrcRepo Model.Repo Proofs.RepoProofs Proofs.RepoMLProofs.
 
 (* Every top-level load, for every file system and import graph, finishes within its fuel
    |files|+1 (the fuel bound is proved, not assumed) and opens no file twice - whether the load
@@ -193,7 +193,7 @@ Print Assumptions C17_external_cache_is_used.
 Theorem C17_identity_separate_repositories_refuted :
   exists fs mc ms f m s' repos' x n t i,
     ml_load fs mc f ms = (inr m, (s', repos')) /\ In x (included m s') /\
-    resolve_name (mkCfg true false []) s' x n = Some (t, i) /\ t <> x /\ dget (file_of t s') (allm s') <> Some t.
+    resolve_name (mkCfg true false [] false) s' x n = Some (t, i) /\ t <> x /\ dget (file_of t s') (allm s') <> Some t.
 Proof.
   set (fs := [mkFile [[1]] [100%N] [101%N] false false false; mkFile [[0]] [101%N] [100%N] false false false]).
   set (mc := mkML [true; true] [0; 1]).
@@ -202,3 +202,84 @@ Proof.
   split; [vm_compute; reflexivity|]. vm_compute. repeat split; auto; try discriminate.
 Qed.
 Print Assumptions C17_identity_separate_repositories_refuted.
+
+(* Identity for several languages, in the form that holds (MStable = well-formedness of the machine state, invariant
+   over every history: C18_several_languages_state_invariant): every name looked up from a model CREATED by the load
+   resolves into the model itself or into THE model registered in the importer's all_models for the target's file -
+   wherever that model came from (parsed now, cached in the importer's repository, taken from another language's). *)
+Theorem C17_identity_several_languages : forall fs mc f s repos m s' repos' y n t i,
+  MStable (s, repos) -> ml_load fs mc f (s, repos) = (inr m, (s', repos')) ->
+  length (heap s) <= y -> resolve_name (mkCfg (lglob mc (lang mc f)) false [] false) s' y n = Some (t, i) ->
+  t = y \/ dget (file_of t s') (allm s') = Some t.
+Proof. exact ml_identity_created. Qed.
+Print Assumptions C17_identity_several_languages.
+
+Theorem C17_local_models_several_languages : forall x xvals fs c f s m s',
+  Stable s -> XOK (length (heap s)) x (begin_op c s) ->
+  load_main_x x xvals fs c f s = (inr m, s') ->
+  forall y g t, In (g, t) (local_of y s') -> length (heap s) <= y -> dget g (allm s') = Some t.
+Proof. exact load_main_x_created_registered. Qed.
+Print Assumptions C17_local_models_several_languages.
+
+(* For a model that existed before the load (cached in the importer's repository or taken from another language's
+   repository) the boundary is the refuted case: IF each of its local models is registered in the importer's repository
+   or held by the other repositories (decidable on the state; false exactly for a model whose import closure contains
+   a file that the other repository loaded for itself and that this load has to parse again, as in
+   C17_identity_separate_repositories_refuted), THEN after the load it is still that very model, registered in the
+   result or held by the cache. The classifier of the known finding is the negation for models of another repository. *)
+Theorem C17_cached_models_keep_their_imports : forall x xvals fs c f s m s' y g t,
+  Stable s -> XOK (length (heap s)) x (begin_op c s) ->
+  load_main_x x xvals fs c f s = (inr m, s') ->
+  y < length (heap s) -> In (g, t) (local_of y s') ->
+  (dget g (allm (begin_op c s)) = Some t \/ x g = Some t) ->
+  In (g, t) (local_of y s) /\ (dget g (allm s') = Some t \/ x g = Some t).
+Proof. exact load_main_x_cached_locals. Qed.
+Print Assumptions C17_cached_models_keep_their_imports.
+
+(* non-vacuity: a.model (language 0) imports b.typ (language 1, cached by an earlier direct load) and c.model; the
+   references of the new a.model resolve into the registered models: the cached b.typ and the new c.model *)
+Example C17_identity_several_languages_witness :
+  let fs := [mkFile [[1]; [2]] [100%N] [101%N; 102%N] false false false;
+             mkFile [] [101%N] [] false false false;
+             mkFile [] [102%N] [] false false false] in
+  let mc := mkML [true; true] [0; 1; 0] in
+  let ms := snd (ml_load fs mc 1 (init_state [], [])) in
+  let r := ml_load fs mc 0 ms in
+  MStable ms /\ fst r = inr 1 /\ length (heap (fst ms)) = 1 /\
+  resolve_name (mkCfg true false [] false) (fst (snd r)) 1 101%N = Some (0, 0) /\
+  resolve_name (mkCfg true false [] false) (fst (snd r)) 1 102%N = Some (2, 0) /\
+  allm (fst (snd r)) = [(0, 1); (1, 0); (2, 2)] /\ reads (fst (snd r)) = [0; 2].
+Proof.
+  cbn zeta. split; [apply (ml_load_stable _ _ 1 (init_state [], [])), MStable_init|]. vm_compute. repeat split; reflexivity.
+Qed.
+Print Assumptions C17_identity_several_languages_witness.
+
+(* NAMES DEFINED TWICE IN ONE FILE.  The search stops at the first model (own, imports in order, builtins) that has
+   the name.  With PlainName inside (cunique) a name that this model defines more than once is refused - the load
+   fails with 'name ... is not unique' reported for the referencing file; with FQN or RREL inside the FIRST element
+   of that name is taken. *)
+Theorem C17_plainname_duplicate_refused : forall c s x n ns t i,
+  cunique c = true -> resolve_name c s x n = Some (t, i) -> dup_in s n t = true -> resolve_refs c s x (n :: ns) = None.
+Proof. exact resolve_refs_duplicate_refused. Qed.
+Print Assumptions C17_plainname_duplicate_refused.
+
+Theorem C17_first_element_taken : forall c s x n t i,
+  resolve_name c s x n = Some (t, i) ->
+  exists fc, cont_of t s = Some fc /\ nth_error (felems fc) i = Some n /\ forall j, j < i -> nth_error (felems fc) j <> Some n.
+Proof. exact resolve_name_first_occurrence. Qed.
+Print Assumptions C17_first_element_taken.
+
+Theorem C17_unique_or_fqn_resolves : forall c s x n ns tg,
+  (cunique c = false \/ dup_in s n (fst tg) = false) -> resolve_name c s x n = Some tg ->
+  resolve_refs c s x (n :: ns) = option_map (cons (Some tg)) (resolve_refs c s x ns).
+Proof. exact resolve_refs_first_taken. Qed.
+Print Assumptions C17_unique_or_fqn_resolves.
+
+(* b defines e101 twice: FQN resolves a's reference to the first one, PlainName refuses the load (error in file 0) *)
+Example C17_duplicates_witness :
+  let fs := [mkFile [[1]] [100%N] [101%N] false false false; mkFile [] [101%N; 102%N; 101%N] [] false false false] in
+  fst (load_main fs (init_cfg_u false false false []) 0 (init_state [])) = inr 0 /\
+  dget 0 (targets (snd (load_main fs (init_cfg_u false false false []) 0 (init_state [])))) = Some [Some (1, 0)] /\
+  fst (load_main fs (init_cfg_u true false false []) 0 (init_state [])) = inl (EUnres 0).
+Proof. vm_compute. repeat split; reflexivity. Qed.
+Print Assumptions C17_duplicates_witness.
